@@ -184,8 +184,8 @@ VARIANTS = [
      "old": "    self.function_depth += 1\n    for n in node.body:\n      self.visit(n)\n    self.function_depth -= 1\n",
      "new": "    outer = self.function_depth\n    self.function_depth = 1\n    for n in node.body:\n      self.visit(n)\n    self.function_depth = outer\n"},
     {"name": "revert-D45-line-level-edit", "rule": "R2.22", "file": PRE, "expect": "fire",
-     "old": "      line = lines[i].encode(\"utf-8\")\n      lines[i] = (line[:col] + b\" = ...\" + line[col:]).decode(\"utf-8\")\n",
-     "new": "      line, mark, comment = lines[i].partition(\"#\")\n      lines[i] = line + \" = ...\" + mark + comment\n"},
+     "old": "      line = lines[2 * i].encode(\"utf-8\")\n      lines[2 * i] = (line[:col] + b\" = ...\" + line[col:]).decode(\"utf-8\")\n",
+     "new": "      line, mark, comment = lines[2 * i].partition(\"#\")\n      lines[2 * i] = line + \" = ...\" + mark + comment\n"},
     {"name": "end-column-not-recorded", "rule": "R2.22", "file": PRE, "expect": "fire",
      "old": "      self.annotation_ends.append((node.end_lineno - 1, node.end_col_offset))",
      "new": "      self.annotation_ends.append((node.end_lineno - 1, len(node.target.id)))"},
